@@ -227,6 +227,30 @@ def helper_scale(s, k):
     return k * s
 
 
+def helper_mm(s, vmax=2.0, km=0.5):
+    return vmax * s / (km + s)
+
+
+def p_call_default_used(x):
+    return helper_mm(x)
+
+
+def p_call_positional_over_default(x, k):
+    return helper_mm(x, k)
+
+
+def p_call_keyword(x, k):
+    return helper_mm(x, km=k)
+
+
+def p_call_all_keywords(x, k):
+    return helper_mm(s=x, km=k)
+
+
+def p_call_keyword_reordered(x, k, v):
+    return helper_mm(x, km=k, vmax=v)
+
+
 def p_call(x, y):
     return helper_ratio(x, y) * 2
 
